@@ -3,6 +3,8 @@ from __future__ import annotations
 
 import copy
 import io
+import json
+import shutil
 import os
 import sys
 import tempfile
@@ -27,10 +29,10 @@ ASSUMPTIONS = [
     "dumps with separate_complex_types and validate with add_comments are documented to modify their argument and are excluded",
 ]
 TIERS = {
-    "quick": {"purity": 2500, "machine_runs": 64, "machine_steps": 12, "thread_rounds": 3, "budget_s": 110},
-    "thorough": {"purity": 60000, "machine_runs": 3000, "machine_steps": 40, "thread_rounds": 64, "budget_s": 2400},
+    "quick": {"histories": 48, "purity": 2500, "machine_runs": 64, "machine_steps": 12, "thread_rounds": 3, "budget_s": 110},
+    "thorough": {"histories": 1600, "purity": 60000, "machine_runs": 3000, "machine_steps": 40, "thread_rounds": 64, "budget_s": 2400},
 }
-PARTS = ["search", "machine", "threads"]
+PARTS = ["search", "machine", "threads", "public_history"]
 
 _tmp = {"dir": None}
 
@@ -59,7 +61,7 @@ def collect_lists(d, out=None):
     return out
 
 
-def purity_case(ch, doc, text, acc):
+def purity_case(ch, doc, text, acc, fixed_opts=None):
     import mappyfile
 
     W = env.Workers.get()
@@ -73,14 +75,27 @@ def purity_case(ch, doc, text, acc):
     before = snap(d)
     case = {"text": text, "op": op, "flags": list(flags)}
     try:
-        if op == "dumps":
-            W.dumps(d)
-        elif op == "dumps_opts":
-            W.dumps(d, indent=ch.choice([0, 2]), align_values=True, end_comment=True, quote="'")
-        elif op == "dump":
-            mappyfile.dump(d, io.StringIO())
-        elif op == "save":
-            mappyfile.save(d, os.path.join(tmpdir(), "p_%d.map" % os.getpid()))
+        if op in ("dumps", "dumps_opts", "dump", "save"):
+            from .. import options
+
+            # every print option except the one documented to reorder its argument; the three module-level
+            # functions must also write the same characters for the same options
+            o = {} if op == "dumps" else options.draw(ch, quotes=['"', "'"], separate=False, linebreak_only=flags[1])
+            if fixed_opts is not None:
+                o = fixed_opts
+            case["opts"] = o
+            t1 = mappyfile.dumps(d, **o)
+            if op == "dump":
+                s_ = io.StringIO(newline="")
+                mappyfile.dump(d, s_, **o)
+                if s_.getvalue() != t1:
+                    out.append(Discrepancy("dump_vs_dumps", f"dump wrote different characters than dumps returns with {o}", case))
+            elif op == "save":
+                fn = os.path.join(tmpdir(), "p_%d.map" % os.getpid())
+                mappyfile.save(d, fn, **o)
+                with open(fn, encoding="utf-8", newline="") as f_:
+                    if f_.read() != t1:
+                        out.append(Discrepancy("save_vs_dumps", f"save wrote different characters than dumps returns with {o}", case))
         elif op == "validate":
             roots = d if isinstance(d, list) else [d]
             for r in roots:
@@ -422,8 +437,119 @@ def thread_round(acc, shard, r, tier, nthreads=16):
                 return
 
 
+# ------------------------------------------------------------------ histories of module-level calls
+
+def run_public_history(steps, case):
+    """Every module-level call's result depends only on its arguments: after any earlier calls in the same process
+    (other documents, other options, the same file path with other content) it equals what worker objects that
+    have not seen that history return."""
+    import mappyfile
+
+    W = env.Workers.get()
+    base = tempfile.mkdtemp(prefix="mfv_c12h_")
+    try:
+        for i, st_ in enumerate(steps):
+            op = st_[0]
+            if op == "loads":
+                _, text, pos, com = st_
+                a = result_of(lambda: snap(mappyfile.loads(text, include_position=pos, include_comments=com)))
+                b = result_of(lambda: snap(W.loads(text, position=pos, comments=com)))
+            elif op == "dumps":
+                _, text, o = st_
+                a = result_of(lambda: mappyfile.dumps(W.loads(text), **o))
+                b = result_of(lambda: W.PrettyPrinter(**o).pprint(W.loads(text)))
+            elif op == "validate":
+                _, text, ver = st_
+                a = result_of(lambda: json.dumps(mappyfile.validate(W.loads(text), version=ver), sort_keys=True, default=repr))
+                b = result_of(lambda: json.dumps(W.Validator().validate(W.loads(text), version=ver), sort_keys=True, default=repr))
+            elif op == "save_open":
+                _, text, o, name = st_
+                path = os.path.join(base, name)
+
+                def via_file():
+                    mappyfile.save(W.loads(text), path, **o)
+                    return snap(mappyfile.open(path))
+
+                a = result_of(via_file)
+                b = result_of(lambda: snap(W.loads(W.PrettyPrinter(**o).pprint(W.loads(text)))))
+            else:
+                raise ValueError(op)
+            if a != b:
+                return [Discrepancy(f"public_history:{op}", f"call {i + 1} ({op}) of a history of module-level calls {[x[0] for x in steps[:i + 1]]} returned "
+                                    f"{str(a)[:160]} where objects without that history return {str(b)[:160]}", case)]
+        return []
+    finally:
+        shutil.rmtree(base, ignore_errors=True)
+
+
+def public_history(acc: Acc, tier, shard, nshards):
+    from .. import options
+    from . import c09
+
+    n = max(1, TIERS[tier]["histories"] // nshards)
+    prof = model.Profile(max_depth=2, max_items=5, forbid="\"'", lookalike_multi=False, kv_roots=False, roots=["map"], includes=False)
+    versioned = [e for e in c09.entries() if e[4] is not None]
+
+    def body(data):
+        ch = model.Ch(data.draw)
+        texts = []
+        for _ in range(ch.int(2, 3)):
+            if ch.chance(1, 3):
+                t, k, ai, meta, rep = ch.choice(versioned)
+                chains = [c for c in c09.chains(t, 3) if c[0][0] == "map"]
+                if chains:
+                    texts.append(render.render(c09.build_doc(chains[0], rep)).text)
+                    continue
+            texts.append(render.render([model.Gen(ch, prof).obj("map", 0)]).text)
+        names = ["a.map", "b.map"]
+        steps = []
+        last = {"o": None}
+
+        def draw_opts():
+            # either a fresh option set or the previous one with a single option changed (state keyed on part of the
+            # options shows only between two calls that differ in the rest)
+            if last["o"] is not None and ch.bool():
+                o = dict(last["o"])
+                k = ch.choice(["align_values", "end_comment", "separate_complex_types", "indent", "spacer", "newlinechar"])
+                if k == "indent":
+                    o[k] = (o[k] + 1) % 9
+                elif k == "spacer":
+                    o[k] = "\t" if o[k] == " " else " "
+                elif k == "newlinechar":
+                    o[k] = "\r\n" if o[k] == "\n" else "\n"
+                else:
+                    o[k] = not o[k]
+            else:
+                o = options.draw(ch, quotes=['"'], linebreak_only=True)
+            last["o"] = o
+            return o
+
+        for _ in range(ch.int(4, 7)):
+            op = ch.choice(["loads", "dumps", "dumps", "validate", "validate", "save_open", "save_open"])
+            text = ch.choice(texts)
+            if op == "loads":
+                steps.append(["loads", text, ch.bool(), ch.bool()])
+            elif op == "dumps":
+                steps.append(["dumps", text, draw_opts()])
+            elif op == "validate":
+                steps.append(["validate", text, ch.choice([None, 5.0, 6.0, 7.0, 7.2, 7.6, 8.0, 8.2])])
+            else:
+                steps.append(["save_open", text, draw_opts(), ch.choice(names)])
+        kinds = [x[0] for x in steps]
+        acc.case(steps, len(set(kinds)) >= 2 and len(set(x[1] for x in steps)) >= 2)
+        for k in kinds:
+            acc.cls("public_history:" + k)
+        if sum(1 for x in steps if x[0] == "save_open") >= 2 and len(set(x[3] for x in steps if x[0] == "save_open")) == 1:
+            acc.cls("public_history:same_path_rewritten")
+        return run_public_history(steps, {"public_history": steps})
+
+    hyp_search(acc, ID, "public_history", shard, n, body, tier)
+
+
 def replay(case):
     W = env.Workers.get()
+    if "public_history" in case:
+        return run_public_history(case["public_history"], case)
     if "op" in case:
         # re-run the purity operation deterministically on the saved text with a fixed chooser
         acc = Acc()
@@ -442,7 +568,7 @@ def replay(case):
 
         ch.choice = choice
         doc = [{"t": "map", "items": [["obj", {"t": "layer", "items": []}]]}]
-        return purity_case(ch, doc, case["text"], acc)
+        return purity_case(ch, doc, case["text"], acc, fixed_opts=case.get("opts"))
     if "history" in case:
         return []
     return []
